@@ -96,6 +96,43 @@ func flowClients() []*flowClient {
 	return []*flowClient{{c: web}, {c: web2}, {c: pub}, {c: post}, {c: pk, key: keys[1], kid: "pk1"}, {c: norefresh}, {c: nocode}}
 }
 
+// flowClientsCross: the pool of the C04 / C07 histories - flowClients plus registrations crossing application type
+// {web, user_agent, native} with auth method {basic, post, none, private_key_jwt} (legal, partly unusual: web+none,
+// native+secret, ...), so that every combination occurs
+func flowClientsCross() []*flowClient {
+	keys := hx.Keys()
+	out := flowClients()
+	mk := func(id string, app op.ApplicationType, auth oidc.AuthMethod) *flowClient {
+		c := opbed.WebClient(id, "secret-"+id, "https://rp.example/cb")
+		c.App, c.Auth = app, auth
+		c.Grants = []oidc.GrantType{oidc.GrantTypeCode, oidc.GrantTypeRefreshToken}
+		fc := &flowClient{c: c}
+		switch auth {
+		case oidc.AuthMethodNone:
+			c.Secret = ""
+		case oidc.AuthMethodPrivateKeyJWT:
+			c.Secret = ""
+			c.Keys = []refstore.ClientKey{{Kid: id + "-k", Pub: keys[1].Pub}}
+			fc.key, fc.kid = keys[1], id+"-k"
+		}
+		return fc
+	}
+	return append(out,
+		mk("webnone", op.ApplicationTypeWeb, oidc.AuthMethodNone),
+		mk("uanone", op.ApplicationTypeUserAgent, oidc.AuthMethodNone),
+		mk("uasec", op.ApplicationTypeUserAgent, oidc.AuthMethodBasic),
+		mk("uapost", op.ApplicationTypeUserAgent, oidc.AuthMethodPost),
+		mk("uapk", op.ApplicationTypeUserAgent, oidc.AuthMethodPrivateKeyJWT),
+		mk("natsec", op.ApplicationTypeNative, oidc.AuthMethodBasic),
+		mk("natpost", op.ApplicationTypeNative, oidc.AuthMethodPost),
+		mk("natpk", op.ApplicationTypeNative, oidc.AuthMethodPrivateKeyJWT))
+}
+
+func regName(c *refstore.Client) string {
+	app := map[int64]string{0: "web", 1: "user_agent", 2: "native"}[appNo(c.App)]
+	return app + "+" + string(c.Auth)
+}
+
 type issuedCode struct {
 	label, real, id, client, redirect, verifier string
 }
@@ -174,7 +211,7 @@ func flowStream(prop string, r *hx.Rand, tier string, n int, w *bufio.Writer) ma
 		if err != nil {
 			panic(err)
 		}
-		cls := flowClients()
+		cls := flowClientsCross()
 		for _, fc := range cls {
 			bed.Store.AddClient(fc.c)
 		}
@@ -188,6 +225,7 @@ func flowStream(prop string, r *hx.Rand, tier string, n int, w *bufio.Writer) ma
 		l := hx.NewLine(prop).I("case", int64(caseNo)).S("op", "reset").S("router", router).B("post", cfg.Post).B("pkjwt", cfg.PrivateKeyJWT).
 			B("refresh", cfg.Refresh).S("issuer", opbed.Issuer)
 		clientsKV(l, cls)
+		ksLine(l, "published", []*hx.Key{bed.SignKey}, []string{"sig1"}, []string{"sig"}) // what an id_token_hint is verified against
 		emit(l)
 
 		var pending []string // auth request ids not yet called back
@@ -197,7 +235,9 @@ func flowStream(prop string, r *hx.Rand, tier string, n int, w *bufio.Writer) ma
 		verifiers := map[string]string{} // auth req id -> verifier
 
 		// ---- the operations (each emits one line = one request against the real handlers)
-		doAuthorize := func(fc *flowClient, scopes string, dropChallenge, forcePKCE bool) string {
+		hinted := map[string]string{} // auth req id -> kind of the id_token_hint it was made with
+		loggedIn := map[string]bool{}
+		doAuthorize := func(fc *flowClient, scopes string, dropChallenge, forcePKCE bool, hintKind string) string {
 			redirect := fc.c.Redirects[r.Intn(len(fc.c.Redirects))]
 			nonce := hx.Pick(r, "", "n-1", "n-2")
 			q := url.Values{"client_id": {fc.c.ID}, "redirect_uri": {redirect}, "response_type": {"code"}, "scope": {scopes}, "state": {"st"}}
@@ -220,9 +260,42 @@ func flowStream(prop string, r *hx.Rand, tier string, n int, w *bufio.Writer) ma
 				q.Del("code_challenge_method")
 				verifier, method = "", ""
 			}
+			// the id_token_hint: an ID token of this provider for some user - valid, expired (both are accepted and put their
+			// subject on the pending request), of another user / issued to another client, or one the provider must refuse
+			hint := ""
+			if hintKind != "" {
+				now := time.Now().Unix()
+				claims := map[string]any{"iss": opbed.Issuer, "sub": hx.Pick(r, "user1", "user2"), "aud": []string{fc.c.ID}, "azp": fc.c.ID,
+					"exp": now + 3600, "iat": now - 60, "auth_time": now - 120}
+				key := bed.SignKey
+				switch hintKind {
+				case "expired":
+					claims["exp"], claims["iat"] = now-3600, now-7200
+				case "other-user":
+					claims["sub"] = "victim"
+				case "other-client":
+					claims["aud"], claims["azp"] = []string{"web2"}, "web2"
+				case "foreign-issuer":
+					claims["iss"] = "https://other.example"
+				case "wrong-key":
+					key = hx.Keys()[1] // an RSA key that is not the provider's
+				}
+				if hintKind == "garbage" {
+					hint = hx.Pick(r, "not.a.jwt", "abc", "e30.e30.e30")
+				} else {
+					payload, _ := json.Marshal(claims)
+					hint, _ = sy.sign(key, "RS256", "sig1", payload)
+				}
+				q.Set("id_token_hint", hint)
+			}
 			resp := bed.Do(bed.Get("/authorize", q, ""))
 			l := hx.NewLine(prop).I("case", int64(caseNo)).S("op", "authorize").S("client", fc.c.ID).S("redirect", redirect).
 				L("scopes", strings.Split(scopes, " ")).S("nonce", nonce).S("state", "st")
+			if hint != "" {
+				l.S("hint", hintKind)
+				sy.tokenKV(l, hint)
+				l.I("now0", time.Now().UnixNano())
+			}
 			if verifier != "" {
 				sym := verifier
 				if method == "S256" {
@@ -236,18 +309,37 @@ func flowStream(prop string, r *hx.Rand, tier string, n int, w *bufio.Writer) ma
 			}
 			if id != "" {
 				l.S("obs", "login").S("o.id", id)
+				if ar := bed.Store.GetAuthRequest(id); ar != nil {
+					l.S("o.presub", ar.Subject) // the subject the pending request carries before anybody logged in
+				}
 				pending = append(pending, id)
 				verifiers[id] = verifier
+				hinted[id] = hintKind
 			} else {
 				l.S("obs", "err").I("o.status", int64(resp.Status))
+				if resp.Loc != nil {
+					l.S("o.error", resp.Loc.Query().Get("error"))
+				} else {
+					l.S("o.error", resp.OAuthError())
+				}
 			}
 			stats["op-authorize"]++
+			stats["authorize-by-"+regName(fc.c)]++
+			if hintKind != "" {
+				stats["authorize-with-hint"]++
+				if id != "" {
+					stats["authorize-with-hint-"+hintKind+"-accepted"]++
+				} else {
+					stats["authorize-with-hint-"+hintKind+"-refused"]++
+				}
+			}
 			emit(l)
 			return id
 		}
 		doLogin := func(id string) {
 			sub := hx.Pick(r, "user1", "user2")
 			bed.Store.CompleteAuthRequest(id, sub)
+			loggedIn[id] = true
 			ar := bed.Store.GetAuthRequest(id)
 			l := hx.NewLine(prop).I("case", int64(caseNo)).S("op", "login").S("id", id).S("sub", sub)
 			if ar != nil {
@@ -290,6 +382,15 @@ func flowStream(prop string, r *hx.Rand, tier string, n int, w *bufio.Writer) ma
 				}
 			}
 			stats["op-callback"]++
+			if !loggedIn[id] {
+				stats["callback-without-login"]++
+				if hinted[id] != "" {
+					stats["callback-without-login-hinted"]++
+				}
+				if out != nil {
+					stats["callback-without-login-GOT-A-CODE"]++
+				}
+			}
 			emit(l)
 			return out
 		}
@@ -334,6 +435,7 @@ func flowStream(prop string, r *hx.Rand, tier string, n int, w *bufio.Writer) ma
 			}
 			stats["op-exchange"]++
 			stats["exchange-"+obsClass(resp)]++
+			stats["exchange-by-"+regName(caller.c)+"-"+obsClass(resp)]++
 			emit(l)
 			return nrt
 		}
@@ -455,7 +557,7 @@ func flowStream(prop string, r *hx.Rand, tier string, n int, w *bufio.Writer) ma
 			}
 			fc := elig[r.Intn(len(elig))]
 			scopes := hx.Pick(r, "openid offline_access", "openid email offline_access profile", "openid profile offline_access")
-			if id := doAuthorize(fc, scopes, false, false); id != "" {
+			if id := doAuthorize(fc, scopes, false, false, ""); id != "" {
 				doLogin(id)
 				if ic := doCallback(id, false); ic != nil {
 					if nrt := doExchange(*ic, fc, ic.redirect, ic.verifier, ic.real, ic.label, false); nrt != nil {
@@ -475,7 +577,7 @@ func flowStream(prop string, r *hx.Rand, tier string, n int, w *bufio.Writer) ma
 				}
 			}
 			fc := elig[r.Intn(len(elig))]
-			if id := doAuthorize(fc, hx.Pick(r, "openid", "openid offline_access", "openid email offline_access"), false, false); id != "" {
+			if id := doAuthorize(fc, hx.Pick(r, "openid", "openid offline_access", "openid email offline_access"), false, false, ""); id != "" {
 				doLogin(id)
 				if ic := doCallback(id, false); ic != nil {
 					stats["scripted-delete-fault-and-retry"]++
@@ -490,7 +592,7 @@ func flowStream(prop string, r *hx.Rand, tier string, n int, w *bufio.Writer) ma
 		// deliberately broken), and finally by its owner
 		if prop == "C04" && r.Chance(15) {
 			owner := byID[hx.Pick(r, "web", "web2", "post")]
-			if id := doAuthorize(owner, hx.Pick(r, "openid", "openid offline_access"), false, false); id != "" {
+			if id := doAuthorize(owner, hx.Pick(r, "openid", "openid offline_access"), false, false, ""); id != "" {
 				doLogin(id)
 				if ic := doCallback(id, false); ic != nil {
 					stats["scripted-cross-client"]++
@@ -500,6 +602,47 @@ func flowStream(prop string, r *hx.Rand, tier string, n int, w *bufio.Writer) ma
 						}
 					}
 					doExchange(*ic, owner, ic.redirect, ic.verifier, ic.real, ic.label, false)
+				}
+			}
+		}
+		// a scripted hinted request: /authorize with the id_token_hint of some user (valid / expired / somebody else's), NO login,
+		// the callback is fetched directly (must be refused: interaction_required), then the login happens after all and
+		// the flow completes - or the client tries the exchange with whatever the callback gave
+		if prop == "C04" && r.Chance(18) {
+			var elig []*flowClient
+			for _, fc := range cls {
+				if containsStr(grantStrings(fc.c.Grants), "authorization_code") {
+					elig = append(elig, fc)
+				}
+			}
+			fc := elig[r.Intn(len(elig))]
+			if id := doAuthorize(fc, hx.Pick(r, "openid", "openid offline_access"), false, false, hx.Pick(r, "valid", "expired", "other-user", "other-client")); id != "" {
+				stats["scripted-hint-callback-without-login"]++
+				ic := doCallback(id, true)
+				if ic == nil && r.Chance(50) {
+					doLogin(id)
+					ic = doCallback(id, false)
+				}
+				if ic != nil {
+					doExchange(*ic, fc, ic.redirect, ic.verifier, ic.real, ic.label, false)
+				}
+			}
+		}
+		// a scripted public client without PKCE: a client with auth method none - of ANY application type - makes a request
+		// without code_challenge and redeems the code with nothing but its client_id (must be refused on both routers)
+		if prop == "C04" && r.Chance(15) {
+			var elig []*flowClient
+			for _, fc := range cls {
+				if fc.c.Auth == oidc.AuthMethodNone {
+					elig = append(elig, fc)
+				}
+			}
+			fc := elig[r.Intn(len(elig))]
+			if id := doAuthorize(fc, hx.Pick(r, "openid", "openid offline_access"), true, false, ""); id != "" {
+				doLogin(id)
+				if ic := doCallback(id, false); ic != nil {
+					stats["scripted-public-client-without-pkce"]++
+					doExchange(*ic, fc, ic.redirect, "", ic.real, ic.label, false)
 				}
 			}
 		}
@@ -513,7 +656,7 @@ func flowStream(prop string, r *hx.Rand, tier string, n int, w *bufio.Writer) ma
 				}
 			}
 			fc := elig[r.Intn(len(elig))]
-			if id := doAuthorize(fc, hx.Pick(r, "openid", "openid offline_access"), false, true); id != "" {
+			if id := doAuthorize(fc, hx.Pick(r, "openid", "openid offline_access"), false, true, ""); id != "" {
 				doLogin(id)
 				if ic := doCallback(id, false); ic != nil {
 					stats["scripted-pkce-near-miss"]++
@@ -553,7 +696,11 @@ func flowStream(prop string, r *hx.Rand, tier string, n int, w *bufio.Writer) ma
 			case kind <= 2: // authorize
 				fc := cls[r.Intn(len(cls))]
 				scopes := hx.Pick(r, "openid", "openid profile", "openid offline_access", "openid email offline_access profile")
-				doAuthorize(fc, scopes, r.Chance(15), false)
+				hk := ""
+				if r.Chance(22) {
+					hk = hx.Pick(r, "valid", "valid", "expired", "other-user", "other-client", "foreign-issuer", "wrong-key", "garbage")
+				}
+				doAuthorize(fc, scopes, r.Chance(15), false, hk)
 			case kind == 3 && len(pending) > 0: // login
 				id := pending[r.Intn(len(pending))]
 				hasCode := false
